@@ -317,6 +317,7 @@ class Evaluator:
         if typ == 'bioLinearUtility':
             n = self.nchildren(nd)
             v = RV(0)
+            friend = {}
             for i in range(n):
                 bnode = self.child(nd, i * 6 + 1)
                 xnode = self.child(nd, i * 6 + 4)
@@ -327,9 +328,18 @@ class Evaluator:
                 if bnode.name != bname or xnode.name != xname:
                     raise EngineError(f'bioLinearUtility: names {bname},{xname} do not match children '
                                       f'{bnode.name},{xnode.name}')
-                # ... and attributes the derivative of the term to the literal id written in the signature
-                bval = self.literal(bid, self.raw(bnode, row, ind, r))
-                v = v + bval * self.raw(xnode, row, ind, r)
+                # ... and attributes the derivative to the literal ids written in the signature through a map
+                # id -> "friend" (later terms overwrite earlier ones); second derivatives are zero
+                xid = uint(nd.items[i * 6 + 5])
+                bval = self.raw(bnode, row, ind, r)
+                xval = self.raw(xnode, row, ind, r)
+                friend[bid] = xval
+                friend[xid] = bval
+                v = v + bval * xval
+            if self.wrt:
+                for L in sorted(self.wrt):
+                    if L in friend:
+                        v = v + self.literal(L, RV(0)) * friend[L]
             return v
         if typ in ('_bioLogLogit', '_bioLogLogitFullChoiceSet'):
             n = self.nchildren(nd)
